@@ -16,7 +16,7 @@ def random_config(r, op, n_choices, N_choices, allow_outliers=True):
         proposal=r.choice(PROPOSALS),
         samples=r.choice([1, 1, 2]),
         grid=r.choice([3, 4, 5, 7]),
-        style=r.choice(["gauss", "gauss", "peaked", "flat"]),
+        style=r.choice(["gauss", "gauss", "peaked", "flat", "binom"]),
         data_seed=r.randrange(1 << 30),
         alpha=r.choice([0.2, 1.0, 3.7, round(math.exp(r.uniform(math.log(0.05), math.log(20.0))), 4)]),
         threshold=r.choice([0.0, 0.5, 0.5, 1.0, round(r.random(), 3)]),
@@ -127,6 +127,20 @@ def run_configs(ctx, configs, budget_s, mandatory=0):
     return done
 
 
+def run_stat_configs(ctx, configs, M):
+    """Sampled invariance on five data points with all-different likelihoods (see sim/statinv.py)."""
+    from sim import statinv
+
+    out = []
+    for i, c in enumerate(configs):
+        st, probs = statinv.run_stat(c, M, ctx.sub(("stat", i)))
+        out.append({"config": c, **st})
+        for key, detail, extra in probs:
+            ctx.violation(key, detail + " | config " + json.dumps(c, sort_keys=True), {"stat": True, "config": c, "key": key, "M": M, "seed": ctx.sub(("stat", i))})
+    ctx.cov["sampled_invariance_five_data_points"] = out
+    ctx.probe("sampled_updates_from_exact_posterior_draws", sum(o["M"] for o in out))
+
+
 def check_pinned(ctx):
     """Known findings identified by exact residuals of pinned configurations: a residual that moved is a new violation."""
     n = 0
@@ -155,6 +169,16 @@ def check_pinned(ctx):
 
 
 def replay(ctx, obj):
+    if obj.get("stat"):
+        from sim import statinv
+
+        bridge.warm_up()
+        st, probs = statinv.run_stat(obj["config"], obj["M"], obj["seed"])
+        for key, detail, extra in probs:
+            if key == obj["key"]:
+                ctx.violation(key, detail, obj)
+        ctx.cov["evaluations"] = 1
+        return
     if obj.get("key", {}).get("sub") == "pinned_residual_changed":
         bridge.warm_up()
         st, probs = kernelmat.run_config(obj["config"])
